@@ -166,6 +166,7 @@ def judge_collection(s, docs, how, strict, tmpdir, label, allow_incomplete=True)
 
 
 def run(s):
+    K.hostile_callers(s)
     q = s.tier == 'quick'
     tmpdir = tempfile.mkdtemp(prefix='verif-c09-')
     try:
